@@ -1,1 +1,12 @@
 import ThriftVerif.Props.C01
+#print axioms Props.C01.ns_add_fresh
+#print axioms Props.C01.ns_inj
+#print axioms Props.C01.ns_names_distinct
+#print axioms Props.C01.scope_globals_nodup
+#print axioms Props.C01.struct_members_nodup
+#print axioms Props.C01.func_params_safe
+#print axioms Props.C01.keywords_cover
+#print axioms Props.C01.imports_exact
+#print axioms Props.C01.scope_globals_complete_partial
+#print axioms Props.C01.mint_clash_witness
+#print axioms Props.C01.struct_members_complete_partial
